@@ -29,7 +29,7 @@ func setOfflineEnv() {
 
 func loadEngine(dir string) (*Engine, error) {
 	setOfflineEnv()
-	cfg := &packages.Config{Mode: packages.LoadAllSyntax, Dir: dir, BuildFlags: []string{"-tags=verif"}}
+	cfg := &packages.Config{Mode: packages.LoadAllSyntax, Dir: dir} // the production build (verif tag off): hooks are no-ops, the contracts file is read as text
 	pkgs, err := packages.Load(cfg, ".")
 	if err != nil {
 		return nil, err
@@ -42,7 +42,7 @@ func loadEngine(dir string) (*Engine, error) {
 	}
 	prog, spkgs := ssautil.AllPackages(pkgs, ssa.NaiveForm)
 	prog.Build()
-	e := &Engine{prog: prog, pkg: spkgs[0]}
+	e := &Engine{prog: prog, pkg: spkgs[0], repoDir: dir, replayInfo: map[string]*ReplayInfo{}}
 	e.funcs = map[string]*ssa.Function{}
 	e.fnName = map[*ssa.Function]string{}
 	e.globalFuncs = map[string]*ssa.Function{}
@@ -305,6 +305,7 @@ func cmdVerify(args []string) {
 	keep := fs.String("keep", "", "keep SMT files in this directory")
 	dir := fs.String("repo", repoDir, "repository directory")
 	verbose := fs.Bool("v", false, "print discharged obligations too")
+	replay := fs.Bool("replay", false, "replay the model of failed obligations against the real code")
 	fs.Parse(args)
 	e, err := loadEngine(*dir)
 	if err != nil {
@@ -358,6 +359,11 @@ func cmdVerify(args []string) {
 						if v.Model != "" && *verbose {
 							fmt.Println(indent(truncate(v.Model, 3000), "          "))
 						}
+					}
+				}
+				if *replay {
+					if conf, out := tryReplay(e, o); out != "" {
+						fmt.Printf("        replay (confirmed on real code: %v):\n%s\n", conf, indent(out, "          "))
 					}
 				}
 			}
